@@ -574,6 +574,47 @@ func cursorWriteBetween(b *ssa.BasicBlock, from, to ssa.Instruction, upd *ssa.Fu
 }
 
 func ruleC07Never(w *World, r *Report) {
+	// who may free a TEID: only where its session ends (the TEID stays programmed until then)
+	{
+		sites := map[string]bool{
+			"pfcpiface.(*PFCPConn).handleSessionDeletionRequest": true,
+			"pfcpiface.(*PFCPConn).handleSessionReportResponse":  true,
+			"pfcpiface.(*PFCPConn).shutdownConn":                 true,
+			"pfcpiface.(*PFCPConn).Shutdown":                     true,
+			"pfcpiface.releaseAllocatedTEIDs":                    true,
+		}
+		k := 0
+		for _, name := range []string{"pfcpiface.(*FTEIDGenerator).FreeID", "pfcpiface.releaseAllocatedTEIDs"} {
+			f := w.Fn("C07", name)
+			for _, e := range w.CG().callersOf(f) {
+				cn := w.FuncName(e.Caller)
+				if strings.HasPrefix(cn, "test/") {
+					continue
+				}
+				k++
+				okS := sites[cn] || strings.HasPrefix(cn, "pfcpiface.(*PFCPConn).handleSessionEstablishmentRequest$")
+				r.check(okS, "R07.7", cn, "a UP-chosen TEID is freed only where its session ends (or its establishment is aborted)", w.Pos(e.Site.Pos()), "session-ending site", cn+" frees a TEID while the session that was given it goes on (the request may still be rejected, the PDR stays programmed): the generator hands the same TEID to another session")
+			}
+		}
+		r.floor("R07.7 TEID release call sites", k, 4)
+		// in the deletion handler only after the datapath accepted the delete
+		h := w.Fn("C07", "pfcpiface.(*PFCPConn).handleSessionDeletionRequest")
+		rejected := w.ConstInt("C07", iePkg, "CauseRequestRejected")
+		delType := w.ConstInt("C07", pfcpPkg, "upfMsgTypeDel")
+		var del *ssa.Call
+		for _, c := range datapathCalls(h, "SendMsgToUPF") {
+			if kk, isK := constInt(c.Call.Args[0]); isK && kk == delType {
+				del = c
+			}
+		}
+		if del != nil {
+			for _, c := range callsTo(h, w.Fn("C07", "pfcpiface.releaseAllocatedTEIDs")) {
+				si := c.(ssa.Instruction)
+				g := instrDominates(del, si) && onlyVia(h, si, func(a, b *ssa.BasicBlock) bool { return causeEdge(a, b, del, rejected, false) })
+				r.check(g, "R07.7", w.FuncName(h), "TEIDs are freed only after the datapath accepted the delete", w.Pos(si.Pos()), "after SendMsgToUPF(del) ≠ rejected", "the TEIDs are freed before (or regardless of) the datapath delete: a rejected deletion leaves the PDR programmed with a TEID the generator considers free")
+			}
+		}
+	}
 	n := 0
 	for _, a := range w.accessesOf(map[string]bool{"upf": true, "FTEIDGenerator": true}) {
 		if !a.write || a.what != "store" {
